@@ -246,6 +246,148 @@ def check_cost(chk, prog):
     chk.floor(R, n, 12, "integer Cost::combine implementations")
 
 
+def _avoiding_reaches_ret(h, start, need):
+    seen = set()
+    stack = [start]
+    while stack:
+        x = stack.pop()
+        if x in seen or x in need:
+            continue
+        seen.add(x)
+        if h.term(x)[0] == "ret":
+            return True
+        stack.extend(h.succ[x])
+    return False
+
+
+def _always_followed(h, start, need):
+    """every path from `start` to a return passes a block of `need` — directly, or through the repo's flag idiom:
+    `flag = true` is set on every path from `start`, and the `need` blocks run on every path of the `if flag { .. }` arm"""
+    from ..util import trace_back
+    if not need:
+        return False
+    if not _avoiding_reaches_ret(h, start, need):
+        return True
+    flags = set()
+    for b in need:
+        for g in guards(h, b):
+            if g.get("truth") is True and g["desc"][0] == "val":
+                l = trace_back(h, g["desc"][1])
+                if l is not None:
+                    flags.add((l, g["at"]))
+    for (U, (sw, succ)) in flags:
+        set_true = {bb for (bb, idx, dproj, kind, payload) in h.defs.get(U, []) if kind == "a" and payload[0] == "use" and payload[1][0] == "k" and payload[1][1].startswith("true")}
+        set_false = {bb for (bb, idx, dproj, kind, payload) in h.defs.get(U, []) if kind == "a" and payload[0] == "use" and payload[1][0] == "k" and payload[1][1].startswith("false")}
+        if not set_true:
+            continue
+        # from start, the test of the flag is not reachable without setting it
+        seen = set()
+        stack = [start]
+        hit = False
+        while stack:
+            x = stack.pop()
+            if x in seen or x in set_true:
+                continue
+            seen.add(x)
+            if x == sw or h.term(x)[0] == "ret":
+                hit = True
+                break
+            stack.extend(h.succ[x])
+        if hit:
+            continue
+        # the flag is not reset between being set and being tested
+        if any(fb in h.reach(tb) and sw in h.reach(fb) for tb in set_true for fb in set_false):
+            continue
+        # inside the `if flag` arm the needed block always runs
+        if not _avoiding_reaches_ret(h, succ, need):
+            return True
+    return False
+
+
+def check_relax_fixpoint(chk, prog):
+    R = chk.rule("R-RELAX-FIXPOINT", "Extractor::bellman_ford: in the relaxation closure every write of a class cost (VacantEntry::insert / OccupiedEntry::insert on `costs`) is followed on "
+                 "every path by the store `ensure_fixpoint = false` (so the outer `while !ensure_fixpoint` loop runs another pass) and by the insertion of a fresh, incremented rank into "
+                 "topo_rnk; an existing cost is only overwritten under `new_cost < old`; compute_cost_hyperedge folds the costs of ALL children: a plain loop over "
+                 "row.vals.iter().take(extraction_num_children()).zip(input sorts) in which every iteration pushes the child's cost or returns None")
+    bf = prog.need("egglog::extract::Extractor::bellman_ford")
+    relax = None
+    for h in prog.children(bf):
+        if any(c.p.endswith("OccupiedEntry::insert") for c in h.calls) and any(c.p.endswith("compute_cost_hyperedge") for c in h.calls):
+            relax = h
+    if relax is None:
+        chk.missing(R, "relaxation closure of bellman_ford (overwrites an occupied cost entry)")
+        return
+    h = relax
+    flag_idx = [k for k, n in h.upvars.items() if n == "ensure_fixpoint"]
+    stores = set()
+    for i, j, s in h.assigns():
+        if s[2][0] == "use" and s[2][1][0] == "k" and s[2][1][1].startswith("false") and "*" in [e for e in s[1][1] if isinstance(e, str)]:
+            # the destination is a deref of a copy of the captured &mut bool
+            at = h.origins([s[1][0], []])
+            if any(a[0] == "param" and a[1] == 1 and a[2] and h.locals[s[1][0]].startswith("&mut bool") for a in at):
+                stores.add(i)
+    def on_field(operand, field, depth=0):
+        for a in h.origins(operand):
+            if a[0] == "param" and field in a[2]:
+                return True
+            if a[0] == "call" and depth < 3 and a[1].rsplit("::", 1)[-1] in ("get_mut", "get", "entry"):
+                cc = h.call_at(a[2])
+                if cc is not None and cc.args and on_field(cc.args[0], field, depth + 1):
+                    return True
+        return False
+    ranks = {c.bb for c in h.calls if c.p.endswith("HashMap::insert") and on_field(c.args[0], "topo_rnk")}
+    writes = [c for c in h.calls if c.p.endswith(("VacantEntry::insert", "OccupiedEntry::insert"))]
+    ok = bool(stores) and bool(ranks) and len(writes) >= 2
+    why = []
+    for w in writes:
+        for need, what in ((stores, "ensure_fixpoint = false"), (ranks, "a topo_rnk update")):
+            if not _always_followed(h, w.bb, need):
+                ok = False
+                why.append(f"{w.p.rsplit('::', 2)[-2]}::insert at line {w.line} can return without {what}")
+        if w.p.endswith("OccupiedEntry::insert"):
+            lt = any(g.get("rel") == "Lt" for g in guards(h, w.bb))
+            if not lt:
+                ok = False
+                why.append("an existing cost is overwritten without the `new_cost < old` test")
+    # the rank written is the incremented counter
+    chk.judge(ok, R, "Extractor::bellman_ford:relax", "every cost improvement forces another pass and gets a fresh rank; overwrite only on strict improvement",
+              "; ".join(why) or "relaxation closure does not record improvements (no ensure_fixpoint store / rank update found)", h.loc)
+    # the outer loop exits only on the flag
+    sw_ok = False
+    for b in sorted(bf.live):
+        t = bf.term(b)
+        if t[0] == "switch":
+            d = bf.describe_operand(t[1])
+            neg = False
+            while d and d[0] == "not":
+                neg = not neg
+                d = d[1]
+            if d and d[0] == "val":
+                l = d[1][1][0] if d[1][0] in ("c", "m") else None
+                if l is not None and bf.varnames.get(l) == "ensure_fixpoint" or (l is not None and any(bf.varnames.get(a[1]) == "ensure_fixpoint" for a in bf.origins(d[1]) if a[0] == "local")):
+                    sw_ok = True
+    chk.judge(sw_ok, R, "Extractor::bellman_ford:loop", "the relaxation passes repeat until a pass without improvement", "the outer loop of bellman_ford is not controlled by ensure_fixpoint", bf.loc)
+    # compute_cost_hyperedge
+    g = prog.need("egglog::extract::Extractor::compute_cost_hyperedge")
+    takes = [c for c in g.calls if c.p.endswith("Iterator::take")]
+    ok_t = bool(takes) and all(any(a[0] == "call" and a[1].endswith("extraction_num_children") for a in g.origins(c.args[1])) for c in takes)
+    nx = [c for c in g.calls if c.p.endswith("Iterator>::next") or c.p.endswith("Iterator::next")]
+    ok_l = False
+    if len(nx) == 1:
+        n0 = nx[0]
+        at = g.origins(n0.args[0])
+        chain_ok = bool(at) and all(a[0] == "call" and a[1].endswith("Iterator::zip") for a in at)
+        sw = n0.target
+        some = [tb for v, tb in g.term(sw)[2] if v == "1"] if g.term(sw)[0] == "switch" else []
+        pushes = {c.bb for c in g.calls if c.p.endswith("Vec::push") and any(a[0] == "call" and a[1].endswith("compute_cost_node") for a in g.origins(c.args[1]))}
+        if some and pushes and chain_ok:
+            r = {some[0]} | g.reach_avoiding([some[0]], pushes)
+            ok_l = n0.bb not in r
+    chk.judge(ok_t and ok_l, R, "Extractor::compute_cost_hyperedge:all-children", "the cost of every child column (up to extraction_num_children) enters the fold",
+              "compute_cost_hyperedge can skip a child's cost (bound is not extraction_num_children(), or an iteration continues without pushing the child's cost): the reported "
+              "cost is lower than the tree cost of the term", g.loc)
+
+
 def run(chk, prog, tier):
     chk.explanation = EXPLANATION
     chk.assumptions = ["rustc nightly MIR construction", "deleted rows are invisible to scans (decided under C16 R-RAW-ROWS)"]
@@ -253,6 +395,7 @@ def run(chk, prog, tier):
     check_extractable(chk, prog)
     check_rank(chk, prog)
     check_cost(chk, prog)
+    check_relax_fixpoint(chk, prog)
     # the extractor reads tables through the batched row scans of the bridge: the last partial batch must not be lost
     from . import scan_common
     scan_common.check_scan_batches(chk, prog, only=lambda f: f.crate in ("egglog_bridge", "egglog") or "for_each_matching_col" in f.name, floor=4)
